@@ -266,7 +266,12 @@ def snapshot(opt, gi):
 
 def group_step_value(opt, gi):
     p0 = opt.param_groups[gi]["params"][0]
-    return int(opt.state[p0]["step"].item())
+    st = opt.state[p0]
+    if "step" in st:
+        return int(st["step"].item())
+    # a tree that does not keep this group's counter in optimizer.state (seed C09-R4A): read the counter the step function uses, so the
+    # comparison that owns the property (C09: saved state complete / resumed trajectory) reports it instead of the projection crashing
+    return int(opt._per_group_state_lists[gi]["step"].item())
 
 
 def masked_lists(opt, gi):
